@@ -235,6 +235,9 @@ def run(chk, repo):
     from rules.shared import no_clamped_conversion
     chk.clauses.append('C14.f (R-TAINT) the genomic positions parseVEP / parseREDItools convert to gene coordinates are the reported ones, never clamped to the gene or transcript: events touching the boundary are rejected, not shortened')
     no_clamped_conversion(chk, repo, 'C14.f', ['parser.VEPParser:VEPRecord.convert_to_variant_record', 'parser.REDItoolsParser:REDItoolsRecord.convert_to_variant_records'])
+    from rules.shared import no_symbol_keys
+    chk.clauses.append('C14.h (R-KEYS) nothing in the VEP / REDItools parsers or their CLIs is cached or looked up under a gene symbol: REF / ALT of a record come from its own gene sequence')
+    no_symbol_keys(chk, repo, 'C14.h', ['parser.VEPParser', 'parser.REDItoolsParser', 'cli.parse_vep', 'cli.parse_reditools'])
     from rules.shared import converted_per_line
     chk.clauses.append('C14.g (R-FRESH) every record parseVEP files for a line of the VEP output is VEPRecord.convert_to_variant_record() of that very line: the per-transcript boundary checks run for every transcript')
     converted_per_line(chk, repo, 'C14.g', 'cli.parse_vep:parse_vep')
